@@ -176,12 +176,22 @@ func ToLibEAP(e model.EAP) (*eap.EAP, error) {
 		out.EapTypeData = &eap.EapExpanded{VendorID: e.VendorID, VendorType: e.VendorType, VendorData: cp(e.Data)}
 	case model.EAka:
 		a := eap.NewEapAkaPrime(eap.EapAkaSubtype(e.Sub))
+		if e.Sub == 0 && e.Identifier%2 == 1 {
+			a = new(eap.EapAkaPrime) // the zero value is a packet of subtype 0 without attributes; the setter makes it usable
+		}
 		for i, at := range e.Attrs {
-			v := at.Value
-			if v == nil {
+			// an empty value is handed over as nil or as an empty slice, a non-empty one as a private copy
+			v := append([]byte(nil), at.Value...)
+			if len(v) == 0 && e.Identifier%2 == 1 {
 				v = []byte{}
 			}
-			if err := a.SetAttr(eap.EapAkaPrimeAttrType(at.Type), append([]byte(nil), v...)); err != nil {
+			if e.Identifier%4 >= 2 {
+				// the caller looks whether the attribute is there before it sets it (it is not: an error, nothing else)
+				if _, err := a.GetAttr(eap.EapAkaPrimeAttrType(at.Type)); err == nil && i == 0 {
+					return nil, fmt.Errorf("bridge: GetAttr(%d) on a packet without attributes reports success", at.Type)
+				}
+			}
+			if err := a.SetAttr(eap.EapAkaPrimeAttrType(at.Type), v); err != nil {
 				return nil, fmt.Errorf("bridge: SetAttr(%d, %d octets): %w", at.Type, len(v), err)
 			}
 			// a message may be encoded while it is still being put together (e.g. to compute a MAC): the intermediate
